@@ -92,7 +92,17 @@ pub enum Data {
 #[derive(Clone, Debug, Serialize, Deserialize)]
 pub enum Case {
     Seq { target: u8, transfer_first: bool, actions: Vec<Act> },
-    Upg { target: UT, req: Req, auth: AuthCov, data: Data, transfer_first: bool },
+    Upg {
+        target: UT,
+        req: Req,
+        auth: AuthCov,
+        data: Data,
+        transfer_first: bool,
+        /// (probe target) the target already went through one Upgrader run and, after it, one upgrade made by its owner
+        /// directly: what the Upgrader may remember from its own run is out of date
+        #[serde(default)]
+        earlier_runs: bool,
+    },
     /// entry-point sweep (see sweep.rs)
     Sweep(crate::sweep::SweepCase),
 }
@@ -216,12 +226,13 @@ impl Property for C15 {
             for auth in AUTHS {
                 for req in [Req::Same, Req::Next, Req::Wrong, Req::NextExtendsCurrent, Req::PrefixOfReported] {
                     for data in [Data::WellTyped, Data::IllTyped, Data::TooManyArgs, Data::Fails, Data::ReportsOtherVersion, Data::ReportsOldVersion] {
-                        v.push(Case::Upg { target: UT::VerProbe, req, auth, data, transfer_first });
+                        v.push(Case::Upg { target: UT::VerProbe, req, auth, data, transfer_first, earlier_runs: false });
+                        v.push(Case::Upg { target: UT::VerProbe, req, auth, data, transfer_first, earlier_runs: true });
                     }
                     for data in [Data::WellTyped, Data::IllTyped, Data::TooManyArgs] {
-                        v.push(Case::Upg { target: UT::Dummy, req, auth, data, transfer_first });
+                        v.push(Case::Upg { target: UT::Dummy, req, auth, data, transfer_first, earlier_runs: false });
                         for k in 0..5 {
-                            v.push(Case::Upg { target: UT::Prod(k), req, auth, data, transfer_first });
+                            v.push(Case::Upg { target: UT::Prod(k), req, auth, data, transfer_first, earlier_runs: false });
                         }
                     }
                 }
@@ -335,7 +346,7 @@ impl Property for C15 {
                 }
                 Ok(())
             }
-            Case::Upg { target, req, auth, data, transfer_first } => {
+            Case::Upg { target, req, auth, data, transfer_first, earlier_runs } => {
                 cx.nontrivial();
                 cx.label("upgrader");
                 let s = build_sys();
@@ -346,6 +357,20 @@ impl Property for C15 {
                 let empty = BytesN::from_array(env, &empty_wasm_hash());
                 // target
                 let (taddr, owner_initial, cur_version, next_version, new_hash): (Address, Address, &str, &str, BytesN<32>) = match target {
+                    UT::VerProbe if *earlier_runs => {
+                        // 0.8.0 --Upgrader--> 0.9.0 --owner, directly--> 1.0.0
+                        let t = env.register(VerProbe, (owner0.clone(), sstr(env, "0.8.0")));
+                        env.mock_all_auths_allowing_non_root_auth();
+                        let d: SVec<Val> = SVec::from_array(env, [sstr(env, "0.9.0").into_val(env), 1u32.into_val(env), false.into_val(env)]);
+                        let r = upg.try_upgrade(&t, &sstr(env, "0.9.0"), &empty, &d);
+                        ensure_p!(matches!(r, Ok(Ok(()))), "setup: a fully authorised Upgrader run was refused");
+                        let p = VerProbeClient::new(env, &t);
+                        p.upgrade(&empty);
+                        p.migrate(&sstr(env, "1.0.0"), &2u32, &false);
+                        env.set_auths(&[]);
+                        cx.label("upgrader:after_an_earlier_run_and_a_direct_upgrade");
+                        (t, owner0.clone(), "1.0.0", "1.1.0", empty.clone())
+                    }
                     UT::VerProbe => (env.register(VerProbe, (owner0.clone(), sstr(env, "1.0.0"))), owner0.clone(), "1.0.0", "1.1.0", empty.clone()),
                     UT::Dummy => (env.register(DummyLike, (owner0.clone(),)), owner0.clone(), "0.1.0", "0.2.0", env.deployer().upload_contract_wasm(DUMMY_WASM)),
                     UT::Prod(k) => {
